@@ -9,7 +9,8 @@ RULE = ('cases: fault-free transactions over pairs of local and peer capabilitie
         'I-Am / unknown / out of date, max-NPDU known or not) with request and response lengths around every boundary these induce; a '
         'raw peer proposing / acknowledging windows 0, 1, 2, 127, 128, 200, 255; a raw peer that acknowledges a segmented response (or request) '
         'of a real node with a window that changes from ack to ack (1..8, shrinking and growing), acknowledging a number still inside the new window; I-Am PDUs arriving mid-history (reduced / enlarged capabilities while a transaction with that peer is open, '
-        'then requests sized between the old and the new limits); records of the client that contradict the SA bit of its request.  Compared: the whole canonical trace, which '
+        'then requests sized between the old and the new limits); records of the client that contradict the SA bit of its request, or carry a max-segments figure off the 2,4,8.. grid and different from the one in the request; '
+        'a peer recorded as transmit-only that sends us a segmented request before we send it an oversized one.  Compared: the whole canonical trace, which '
         'includes the encoded length of every APDU, the segmentation flags and the window fields.  non-trivial = at least one frame; '
         'distinct by scenario.')
 TRUSTED = S.TRUSTED
@@ -28,6 +29,10 @@ def cases(rng, tier):
         out.append(S.scenario_case(S.gen_iam(rng), 'iam-mid-history'))
     for _ in range(400 if tier == 'thorough' else 60):
         out.append(S.scenario_case(S.gen_sa_mismatch(rng), 'record-vs-request'))
+    for _ in range(300 if tier == 'thorough' else 40):
+        out.append(S.scenario_case(S.gen_record_maxsegs(rng), 'record-max-segments'))
+    for _ in range(300 if tier == 'thorough' else 40):
+        out.append(S.scenario_case(S.gen_bidir_records(rng), 'peer-segments-to-us'))
     return out
 
 
@@ -38,6 +43,8 @@ def direct(rng, tier, focus=()):
             ('scripted-windows', lambda r: S.gen_scripted_windows(r), 2000 if big else 200),
             ('iam-mid-history', lambda r: S.gen_iam(r), 6000 if big else 600),
             ('record-vs-request', lambda r: S.gen_sa_mismatch(r), 4000 if big else 400),
+            ('record-max-segments', lambda r: S.gen_record_maxsegs(r), 5000 if big else 500),
+            ('peer-segments-to-us', lambda r: S.gen_bidir_records(r), 4000 if big else 400),
             ('transaction', lambda r: S.gen_transaction(r, big=r.random() < 0.2), 10000 if big else 1000)]
     failures, stats = S.direct_families(rng, fams, lambda tr: S.check_c12(tr) + [x for x in S.check_c05(tr) if x['kind'] == 'window-exceeded'], focus)
     failures.extend(S.known_replays('C12', S.check_c12))
